@@ -146,8 +146,16 @@ class Inliner:
         for dname, fn in self.fns.items():
             if not fn.get("has_body") or dname in self.keep or dname not in self.raw:
                 continue
-            if fn.get("impl_trait") or fn.get("vis") == "Public":
+            if fn.get("vis") == "Public":
                 continue
+            if fn.get("impl_trait"):
+                # methods of a *private* trait of this crate that is never used as a trait object (an extension trait with a
+                # blanket impl, `x.or_timed_out(..)`) are helpers like any other: their calls are statically resolved
+                tr_ = fn["impl_trait"]
+                if tr_ not in {t.get("def") for t in self.d.get("traits", [])}:
+                    continue
+                if any(isinstance(t, dict) and t.get("k") == "dyn" and tr_.split("::")[-1] in (t.get("s") or "") for t in self.d["types"]):
+                    continue
             if "::tests::" in dname or dname.startswith("tests::"):
                 continue
             out.add(dname)
@@ -360,11 +368,11 @@ class Inliner:
             caller["selects"] = list(caller["selects"]) + list(callee["selects"])
         return lm, bm, lbase, bbase, new_bodies
 
-    def _inline_sync(self, caller, k, callee):
+    def _inline_sync(self, caller, k, callee, targs=None):
         blk = caller["blocks"][k]
         t = blk["term"]
         n0 = len(callee["blocks"])
-        tmap = self._mapping(callee["def"], (t.get("fn") or {}).get("targs"))
+        tmap = self._mapping(callee["def"], targs if targs is not None else (t.get("fn") or {}).get("targs"))
         lm, bm, lbase, bbase, newb = self._splice(caller, callee, None, None, tmap)
         span = t["span"]
         for i, a in enumerate(t["args"]):
@@ -825,6 +833,14 @@ class Inliner:
                                 and (not self.fns[cd].get("async") or self._coroutine_ctor(self.raw[cd]) is not None):
                             extra += self._inline_sync(body, i, self.raw[cd])
                             self.log.append((body["def"], cd, "async-ctor" if self.fns[cd].get("async") else "sync"))
+                            touched = changed = True
+                        # statically resolved call of a private extension-trait method
+                        elif (fn.get("resolved") or {}).get("def") in self.cand and self.fns[fn["resolved"]["def"]].get("impl_trait") \
+                                and fn["resolved"]["def"] in self.raw and fn["resolved"]["def"] != body["def"] and body.get("root") != fn["resolved"]["def"] \
+                                and not self.fns[fn["resolved"]["def"]].get("async") and len(t["args"]) == self.raw[fn["resolved"]["def"]]["arg_count"]:
+                            rd_ = fn["resolved"]["def"]
+                            extra += self._inline_sync(body, i, self.raw[rd_], targs=fn["resolved"].get("targs"))
+                            self.log.append((body["def"], rd_, "trait-method"))
                             touched = changed = True
                         # await of a future built in this body from an inlined async helper
                         elif fn.get("name") == "poll" and (fn.get("resolved") or {}).get("def") and t["args"]:
